@@ -1694,6 +1694,15 @@ func stepCandidate(r *raft, m *pb.Message) error {
 		r.becomeFollower(m.GetTerm(), m.GetFrom()) // always m.Term == r.Term
 		r.handleSnapshot(m)
 	case myVoteRespType:
+		if r.state == StatePreCandidate && !m.GetReject() && m.GetTerm() != r.Term+1 {
+			// A granted pre-vote carries the term it was requested for. One that
+			// was requested for a different term than the one we are currently
+			// pre-campaigning for (r.Term+1) is a delayed response to an earlier
+			// pre-candidacy and must not count towards this one.
+			r.logger.Infof("%x [term: %d] ignored a stale %s from %x granted for term %d",
+				r.id, r.Term, m.GetType(), m.GetFrom(), m.GetTerm())
+			return nil
+		}
 		gr, rj, res := r.poll(m.GetFrom(), m.GetType(), !m.GetReject())
 		r.logger.Infof("%x has received %d %s votes and %d vote rejections", r.id, gr, m.GetType(), rj)
 		switch res {
